@@ -18,7 +18,7 @@ fn is_ratio(p: &str) -> bool {
     p == "rer" || p == "rer_nrb" || p == "rer_onst" || p == "k_exp" || p == "arearef" || p.contains(".f_match[")
 }
 
-pub fn check_case(_ctx: &Ctx, case: &Case, t: &mut Tally) {
+pub fn check_case(ctx: &Ctx, case: &Case, with_cli: bool, t: &mut Tally) {
     let Some((comps, fac)) = prepare(PROP, case, t) else { return };
     let Some(ep) = eval(PROP, case, &comps, &fac, case.k, case.area, case.lm, t) else { return };
     let base = flat(&ep);
@@ -32,10 +32,10 @@ pub fn check_case(_ctx: &Ctx, case: &Case, t: &mut Tally) {
     let maxv = case.spec.max_abs();
     // scale factors keeping every value 0 or >= 0.01 kWh and below 1e7 (the property's domain)
     let mut cands: Vec<(f32, bool)> = vec![];
-    for j in -3i32..=10 {
+    for j in [-3i32, -2, -1, 1, 2, 3, 4, 5, 6, 7, 8, 9, 10, 12, 14] {
         cands.push((2f32.powi(j), true));
     }
-    for c in [3.0f32, 0.1, 1000.0, 7.5, 0.3] {
+    for c in [3.0f32, 0.1, 1000.0, 7.5, 0.3, 30000.0] {
         cands.push((c, false));
     }
     cands.retain(|(c, _)| minv * c >= 0.01 && maxv * c < 1e7);
@@ -143,6 +143,11 @@ pub fn check_case(_ctx: &Ctx, case: &Case, t: &mut Tally) {
             t.count("area_scalings_checked");
         }
     }
+    if with_cli {
+        if let Some(bin) = &ctx.cli_debug {
+            cli_area_pair(bin, case, &mut r, t);
+        }
+    }
     if get(&base, "balance.prod.an") > 0.0 && carriers_of(&base).len() >= 2 {
         t.nontrivial(case.hash());
         t.sample(|| {
@@ -154,9 +159,91 @@ pub fn check_case(_ctx: &Ctx, case: &Case, t: &mut Tally) {
     }
 }
 
+/// the area half of the property at the program's boundary: cteepbd -a A and -a c*A on the same file
+fn cli_area_pair(bin: &std::path::Path, case: &Case, r: &mut Rng, t: &mut Tally) {
+    use crate::case::FacChoice;
+    use crate::cli;
+    let dir = cli::scratch_dir("c11");
+    let cpath = dir.join("c.csv");
+    let _ = std::fs::write(&cpath, case.spec.to_text());
+    // areas that are not multiples of 0.01 m2
+    let a1 = *r.pick(&[2.345f32, 0.3125, 12.3456, 0.0977, 150.505, 0.004]);
+    let c = *r.pick(&[2.0f32, 0.5, 8.0, 0.125, 3.0]);
+    let a2 = a1 * c;
+    let mut base: Vec<String> = vec!["-c".into(), cpath.display().to_string(), "-k".into(), format!("{}", case.k)];
+    match &case.fac {
+        FacChoice::Loc { loc, .. } => {
+            base.push("-l".into());
+            base.push(loc.clone());
+        }
+        FacChoice::User { text, .. } => {
+            let fpath = dir.join("f.csv");
+            let _ = std::fs::write(&fpath, text);
+            base.push("-f".into());
+            base.push(fpath.display().to_string());
+        }
+    }
+    let mut outs = vec![];
+    for (i, a) in [a1, a2].iter().enumerate() {
+        let mut args = base.clone();
+        let j = dir.join(format!("o{i}.json"));
+        args.extend(["-a".to_string(), format!("{a}"), "--json".to_string(), j.display().to_string()]);
+        let res = cli::run(bin, &args, 20_000);
+        t.evaluations += 1;
+        let js = std::fs::read_to_string(&j).ok().and_then(|s| serde_json::from_str::<Value>(&s).ok());
+        outs.push((res, js, args));
+    }
+    let wit = |what: String| {
+        let mut w = case.witness();
+        w["areas"] = json!([a1, a2]);
+        w["argv"] = json!(outs[0].2);
+        w["what"] = json!(what);
+        w
+    };
+    match (&outs[0], &outs[1]) {
+        ((r1, Some(j1), _), (r2, Some(j2), _)) if r1.code == Some(0) && r2.code == Some(0) => {
+            let (g1, g2) = (j1["arearef"].as_f64().unwrap_or(f64::NAN), j2["arearef"].as_f64().unwrap_or(f64::NAN));
+            if (g1 - a1 as f64).abs() > 1e-6 * a1 as f64 || (g2 - a2 as f64).abs() > 1e-6 * a2 as f64 {
+                t.violation("C11.cli_area_not_the_one_given", format!("cteepbd -a {a1} / -a {a2} computed with areas {g1} / {g2}"), || wit("arearef".into()));
+            }
+            for key in ["epus", "nepus"] {
+                let (v1, v2) = (j1["balance_m2"]["used"][key].as_f64().unwrap_or(f64::NAN), j2["balance_m2"]["used"][key].as_f64().unwrap_or(f64::NAN));
+                let abs = j1["balance"]["used"][key].as_f64().unwrap_or(f64::NAN);
+                if v1 != 0.0 && !((v1 / v2 - c as f64).abs() <= 2e-5 * c as f64) {
+                    t.violation("C11.cli_per_m2_not_inverse_in_area", format!("per-m2 {key} is {v1} at {a1} m2 and {v2} at {a2} m2 (absolute {abs}); the ratio should be {c}"), || wit(key.to_string()));
+                }
+                if !((v1 - abs / a1 as f64).abs() <= 2e-6 * v1.abs() + 1e-12) {
+                    t.violation("C11.cli_per_m2_not_inverse_in_area", format!("per-m2 {key} = {v1} but {abs} / {a1} = {}", abs / a1 as f64), || wit(key.to_string()));
+                }
+            }
+            // nothing else changes
+            for path in [["balance", "we", "b"], ["balance", "we", "a"]] {
+                let (x, y) = (&j1[path[0]][path[1]][path[2]], &j2[path[0]][path[1]][path[2]]);
+                if let Some(d) = super::c10::json_diff(x, y, "", &|_| 0.0) {
+                    // building totals of two runs differ by hash-order rounding only: relative check
+                    let big = x["nren"].as_f64().unwrap_or(0.0).abs().max(x["ren"].as_f64().unwrap_or(0.0).abs());
+                    if big < 1e5 {
+                        t.violation("C11.cli_area_changes_absolute_results", format!("absolute results change with the area: {d}"), || wit("absolute".into()));
+                    }
+                }
+            }
+            t.count("cli_area_pairs_checked");
+        }
+        ((r1, _, _), (r2, _, _)) => {
+            if r1.code != r2.code && !(a1.min(a2) <= 0.0011) {
+                t.violation("C11.cli_outcome_changes_with_area", format!("cteepbd ends with {:?} at {a1} m2 and {:?} at {a2} m2", r1.code, r2.code), || wit("outcome".into()));
+            } else {
+                t.count("cli_area_pairs_rejected");
+            }
+        }
+    }
+    let _ = std::fs::remove_dir_all(&dir);
+}
+
 pub fn run(ctx: &Ctx) -> Report {
     let total = ctx.cases(10_000, 400_000);
-    let tally = run_sharded(ctx, total, |_idx, r, t| {
+    let cli_every = if ctx.thorough() { 150 } else { 80 };
+    let tally = run_sharded(ctx, total, |idx, r, t| {
         let mut o = GenOpts::default();
         o.vmul = *r.pick(&[1i64, 8, 8, 16]);
         o.demands = Tri::Always;
@@ -164,19 +251,29 @@ pub fn run(ctx: &Ctx) -> Report {
         if r.chance(1, 2) {
             o.class = Some(Class::Dyadic);
         }
-        let case = gen_case(r, &o, 25);
-        check_case(ctx, &case, t);
+        let mut case = gen_case(r, &o, 25);
+        if r.chance(1, 4) {
+            // a consistent DHW scenario (auxiliaries, biomass, PV shared, ...): the DHW fraction is meaningful there
+            if let Some(sc) = super::c15::gen_scenario(r) {
+                case = sc.case;
+                t.count("cases_from_dhw_scenarios");
+            }
+        }
+        check_case(ctx, &case, idx % cli_every == 0, t);
     });
-    let quotas = vec![
+    let mut quotas = vec![
         ("scalings.power_of_two".to_string(), tally.get("scalings.power_of_two"), 2000),
         ("scalings.other".to_string(), tally.get("scalings.other"), 500),
         ("fields_compared_bitwise".to_string(), tally.get("fields_compared_bitwise"), 100_000),
         ("dhw_fraction_pairs_compared".to_string(), tally.get("dhw_fraction_pairs_compared"), 300),
         ("area_scalings_checked".to_string(), tally.get("area_scalings_checked"), 1000),
     ];
+    if ctx.cli_debug.is_some() {
+        quotas.push(("cli_area_pairs_checked".to_string(), tally.get("cli_area_pairs_checked"), 30));
+    }
     Report {
         tally,
-        rule: "every declared value of a generated building is multiplied by c (powers of two from 2^-3 to 2^10: per-carrier results must be exactly c times, bitwise; 3, 0.1, 0.3, 7.5, 1000: within tolerance), keeping values 0 or >= 0.01 kWh and below 1e7; RER values, load-matching factors and the DHW renewable fraction must not change; the reference area is multiplied by another factor and only the per-m2 figures may change; non-trivial = at least two carriers and some production; distinct = distinct (components text, factors, k_exp, area, mode)".into(),
+        rule: "every declared value of a generated building is multiplied by c (powers of two from 2^-3 to 2^10: per-carrier results must be exactly c times, bitwise; 3, 0.1, 0.3, 7.5, 1000: within tolerance), keeping values 0 or >= 0.01 kWh and below 1e7; RER values, load-matching factors and the DHW renewable fraction must not change; the reference area is multiplied by another factor and only the per-m2 figures may change (in the library, and every ~80th case through the real binary with areas that are not multiples of 0.01 m2); non-trivial = at least two carriers and some production; distinct = distinct (components text, factors, k_exp, area, mode)".into(),
         assumptions: vec![
             "buildings with regenerated auxiliaries and building totals are accumulated in hash order: compared within 2e-6 of the cancellation scale instead of bitwise".into(),
             "the domain excludes scalings that push a non-zero value below 0.01 kWh (absolute guards 1e-3 / 0.01 of the library stay on the same side)".into(),
@@ -188,6 +285,6 @@ pub fn run(ctx: &Ctx) -> Report {
 pub fn replay(ctx: &Ctx, _monitor: &str, w: &Value) -> Option<Report> {
     let case: Case = serde_json::from_value(w["case"].clone()).ok()?;
     let mut t = Tally::default();
-    check_case(ctx, &case, &mut t);
+    check_case(ctx, &case, ctx.cli_debug.is_some(), &mut t);
     Some(Report { tally: t, rule: "replay".into(), assumptions: vec![], quotas: vec![] })
 }
